@@ -205,10 +205,19 @@ def run():
             rejected.append((rq, end, "PanArith.Holds is false"))
         ck.sample({"src": rq["src"], "observed": end, "spec_accepts": verdicts[rq["id"]]})
     again = pvlib.confirm([r[0] for r in rejected], label="C10 confirm")
+    history = [r for r in reqs if r["src"].startswith("P := ")]
     for rq, end, why in rejected:
         op, a, b, exp = meta[rq["id"]]
         if again[rq["id"]]["end"] is not None and again[rq["id"]]["end"] != end:
-            raise pvlib.Broken(f"flaky observation for {rq['src']!r}")
+            # alone in a new process the operation is right: does it go wrong again after the history programs of this run (same operator) in ONE process?
+            hist = [dict(r, id=f"h{k}") for k, r in enumerate(h for h in history if meta[h["id"]][0] == op and h["src"].startswith("P := Int."))][:30]
+            seq = run_cases(hist + [dict(rq, id="again")], nproc=1, label="C10 history confirm")
+            if seq["again"]["end"] != end:
+                raise pvlib.Broken(f"flaky observation for {rq['src']!r}")
+            ck.reject(signature(op, a, b) + ":after-history", f"{rq['src']} gives {end} when evaluated after programs that used a descendant overriding `{op}` in the same process "
+                      f"(alone it gives {again[rq['id']]['end']}) ({why})",
+                      {"src": rq["src"], "observed": end, "alone": again[rq["id"]]["end"], "history": [h["src"] for h in hist][:5], "op": op, "a": a, "b": b, "why": why})
+            continue
         ck.reject(signature(op, a, b), f"{rq['src']} gives {end} ({why})",
                   {"src": rq["src"], "observed": end, "op": op, "a": a, "b": b, "why": why})
     ck.cov["evaluations"] = len(reqs)
@@ -225,7 +234,8 @@ def run():
 def replay(path):
     d = json.load(open(path))
     c = d["case"]
-    end = run_cases([{"id": "r", "src": c["src"]}], nproc=1)["r"]["end"]
+    hist = [{"id": f"h{k}", "src": h} for k, h in enumerate(c.get("history", []))]       # history-dependent case: same process, history first
+    end = run_cases(hist + [{"id": "r", "src": c["src"]}], nproc=1)["r"]["end"]
     k, r, kind, fm, fe = decode(end)
     row = {"id": "r", "op": c["op"], "a": big(c["a"]), "b": big(c["b"]), "k": k, "r": big(r), "kind": kind, "fm": big(fm), "fe": fe}
     tres = run_tlc("Trace_C10", files={"c10.ndjson": ndjson([row])}, workers=1)
